@@ -70,6 +70,20 @@ FT = {
             "hash": ["|a, h| ::core::hash::Hash::hash(&a.0, h)"],
         },
     },
+    # a type with inherent methods named eq / cmp / partial_cmp / hash / ... that behave differently from its trait impls:
+    # derived code has to compare and hash it through the traits
+    "Sh": {
+        "ty": "::dxrt::Sh", "caps": TOTAL, "dom": [f"::dxrt::Sh({i})" for i in range(4)],
+        "key": {
+            "ord": [("$.0", TOTAL)], "partial_ord": [("($.0 % 2)", TOTAL)], "eq": [("($.0 / 2)", TOTAL)],
+            "partial_eq": [("($.0 % 3)", TOTAL)], "hash": [("($.0 / 2) as u32", TOTAL)],
+        },
+        "by": {
+            "ord": ["|a, b| ::core::cmp::Ord::cmp(&b.0, &a.0)"], "partial_ord": ["|a, b| ::core::cmp::PartialOrd::partial_cmp(&a.0, &b.0)"],
+            "eq": ["|a, b| a.0 / 2 == b.0 / 2"], "partial_eq": ["|a, b| a.0 % 2 == b.0 % 2"],
+            "hash": ["|a, h| ::core::hash::Hasher::write_u8(h, a.0)"],
+        },
+    },
     # fields whose type mentions the type parameter T (instantiated with V); keys go through the declared bound T: HasK
     "T": {
         "ty": "T", "caps": TOTAL, "dom": [f"{V}({i})" for i in range(6)], "generic": True,
